@@ -132,9 +132,6 @@ def frame_bytes(spec: dict, timecode: bool) -> Tuple[bytes, bytes]:
     return header_bytes(spec, timecode), fill_bytes(spec["fill"], spec["n"])
 
 
-RECV_TIME = slice(16, 24)
-
-
 def mask_recv_time(h: bytes) -> bytes:
     return h[:16] + b"\0" * 8 + h[24:]
 
